@@ -9,7 +9,7 @@ Open Scope Z_scope.
 (* --- the statements --- *)
 Lemma no_lost_notify : forall evs, let s := run evs init in
   ((0 < pend s)%nat -> rd_waiting (rd s) = true -> token s = true \/ epc s = true) /\
-  (ss s <> SOpen -> closeN s = true \/ ppc s = true \/ lc_mid_open (lc s) = true) /\
+  (ss s <> SOpen -> closeN s = true \/ ppc s = true \/ lc_mid_open (lc s) = true \/ dpc s = true) /\
   (sclosing s = true -> closeN s = true).
 Proof.
   intros evs s. destruct (winv_run evs init winv_init) as [h1 h2 h3 _ _ _ _ _ _]. fold s in h1, h2, h3. auto.
@@ -19,10 +19,10 @@ Lemma wake_stable : forall s e, rd s = RParked -> wake_enabled s = true -> is_re
   rd (step s e) = RParked /\ wake_enabled (step s e) = true.
 Proof.
   intros s e Hr Hw He.
-  destruct s as [pend0 rbuf0 token0 closeN0 ss0 epc0 ppc0 lc0 sclosing0 now0 dl0 tmr0 tch0 use_t0 armed0 rd0 minsz0 res0].
+  destruct s as [pend0 rbuf0 token0 closeN0 ss0 epc0 ppc0 lc0 sclosing0 dpc0 now0 dl0 tmr0 tch0 use_t0 armed0 rd0 minsz0 res0].
   cbn in Hr. subst rd0. unfold wake_enabled in *. cbn in Hw.
   destruct e; try discriminate; cbn [step];
-    cbn [pend rbuf token closeN ss epc ppc lc sclosing now dl tmr tch use_t armed rd minsz res];
+    cbn [pend rbuf token closeN ss epc ppc lc sclosing dpc now dl tmr tch use_t armed rd minsz res];
     brk; cbn; rewrite ?orb_true_r; auto.
   (* Fire: tch becomes true *)
   all: try (split; [reflexivity|]; destruct token0, closeN0, use_t0, tch0; cbn in *; auto).
@@ -37,7 +37,7 @@ Proof.
   fold s in h1, h2, h3, h4, h5, h6, h7, h8, h9. unfold wake_enabled, helper_pending. rewrite Hr in *. cbn in *.
   destruct Hc as [Hc|[Hc|[Hc|[Hu Ha]]]].
   - destruct (h1 Hc eq_refl) as [E|E]; rewrite E; cbn; rewrite ?orb_true_r; auto.
-  - destruct (h2 Hc) as [E|[E|E]].
+  - destruct (h2 Hc) as [E|[E|[E|E]]]; [| | |right; rewrite E; rewrite ?orb_true_r; reflexivity].
     + left. rewrite E. rewrite orb_true_r. reflexivity.
     + right. rewrite E. rewrite orb_true_r. reflexivity.
     + right. unfold lc_mid_open in E. destruct (lc s) as [|o|o|o]; try discriminate; destruct o; try discriminate;
@@ -48,15 +48,32 @@ Proof.
     + right. rewrite E. apply Z.leb_le in Ha. rewrite Ha. rewrite orb_true_r. reflexivity.
 Qed.
 
+(* the death of the session releases a parked reader whatever the state of its stream *)
+Lemma session_close_releases : forall evs, let s := run evs init in
+  rd s = RParked -> sclosing s = true -> wake_enabled s = true.
+Proof.
+  intros evs s Hr Hc. destruct (winv_run evs init winv_init) as [_ _ h3 _ _ _ _ _ _]. fold s in h3.
+  unfold wake_enabled. rewrite (h3 Hc). rewrite orb_true_r. reflexivity.
+Qed.
+
+(* "a read returns when either end closes the stream": a parked reader whose stream is not open has a
+   ready select branch, or the closer is at the step that readies it *)
+Definition close_releases_full : Prop :=
+  forall evs, let s := run evs init in
+    rd s = RParked -> ss s <> SOpen -> wake_enabled s = true \/ helper_pending s = true.
+
+Lemma close_releases : close_releases_full.
+Proof. intros evs s Hr Hc. apply (wake_or_helper evs Hr). right. left. exact Hc. Qed.
+
 Lemma timeout_step : forall s e, WInv s ->
   res (step s e) = Some RErrTimeout -> res s <> Some RErrTimeout ->
   exists d, dl s = Some d /\ d <= now s.
 Proof.
   intros s e [h1 h2 h3 h4 h5 h6 h7 h8 h9].
-  destruct s as [pend0 rbuf0 token0 closeN0 ss0 epc0 ppc0 lc0 sclosing0 now0 dl0 tmr0 tch0 use_t0 armed0 rd0 minsz0 res0].
+  destruct s as [pend0 rbuf0 token0 closeN0 ss0 epc0 ppc0 lc0 sclosing0 dpc0 now0 dl0 tmr0 tch0 use_t0 armed0 rd0 minsz0 res0].
   cbn in h1, h2, h3, h4, h5, h6, h7, h8, h9.
   destruct e; cbn [step]; unfold reader_step, wake, finish_early, finish_late, move_to, set_rd;
-    cbn [pend rbuf token closeN ss epc ppc lc sclosing now dl tmr tch use_t armed rd minsz res];
+    cbn [pend rbuf token closeN ss epc ppc lc sclosing dpc now dl tmr tch use_t armed rd minsz res];
     brk; cbn; intros A B; try congruence.
   (* the only case left: the parked select took the timer branch *)
   all: norm; exists armed0; cbn in *; intuition congruence.
@@ -182,3 +199,104 @@ Proof.
     destruct e; cbn [step2]; cbn [acceptq shutdown_flag shutdownCh closer acc now2 t_start t_out ires itch itmr ini];
       brk2; cbn; try reflexivity; try congruence.
 Qed.
+
+(* ---------------------------------------------------------------------------------------- *)
+(* the socket-write hand-off and the unbounded slow-path send                                 *)
+(* ---------------------------------------------------------------------------------------- *)
+Record HInv (s : hs) : Prop := {
+  h_spin : sl s = SLSpin -> htok s = true \/ fp s = FPHold \/ fp s = FPNotify;
+  h_wr : hwriting s = true <-> (sl s = SLWrite \/ fp s = FPHold);
+  h_mutex : ~ (sl s = SLWrite /\ fp s = FPHold) }.
+
+Lemma hinv_init : forall c, HInv (inith c).
+Proof.
+  intro c. constructor; cbn.
+  - discriminate.
+  - split; [discriminate|intros [H|H]; discriminate].
+  - intros [H _]. discriminate.
+Qed.
+
+Lemma hinv_step : forall s e, HInv s -> HInv (steph s e).
+Proof.
+  intros s e [h1 [h2a h2b] h3]. destruct s as [q c w t l f k]. cbn in h1, h2a, h2b, h3.
+  destruct e; cbn [steph sq scap hwriting htok sl fp sock_full];
+    repeat match goal with
+           | |- context [match ?x with SLIdle => _ | _ => _ end] => is_var x; destruct x
+           | |- context [match ?x with FPIdle => _ | _ => _ end] => is_var x; destruct x
+           | |- context [match ?x with O => _ | S _ => _ end] => is_var x; destruct x
+           | |- context [if ?b then _ else _] => is_var b; destruct b
+           | |- context [if ?b then _ else _] => destruct b eqn:?
+           end;
+    constructor; cbn; try tauto; try (intuition (try congruence; try discriminate)).
+Qed.
+
+Lemma hinv_run : forall evs s, HInv s -> HInv (runh evs s).
+Proof.
+  induction evs as [|e r IH]; intros s HI; [exact HI|].
+  change (runh (e :: r) s) with (runh r (steph s e)). apply IH. apply hinv_step. assumption.
+Qed.
+
+Lemma handoff : forall c evs, let s := runh evs (inith c) in
+  (sl s = SLSpin -> htok s = true \/ fp s = FPHold \/ fp s = FPNotify) /\
+  (hwriting s = true <-> (sl s = SLWrite \/ fp s = FPHold)) /\
+  ~ (sl s = SLWrite /\ fp s = FPHold).
+Proof. intros c evs s. destruct (hinv_run evs (inith c) (hinv_init c)) as [A B C]. fold s in A, B, C. auto. Qed.
+
+Lemma slow_send_blocks_only_when_full : forall s e,
+  fp s <> FPBlocked -> fp (steph s e) = FPBlocked -> e = HFpTry /\ hwriting s = true /\ sq s = scap s \/ (scap s < sq s)%nat.
+Proof.
+  intros s e H1 H2. destruct s as [q c w t l f k]. cbn in H1.
+  destruct e; cbn [steph sq scap hwriting htok sl fp sock_full] in H2;
+    repeat match type of H2 with
+           | context [match ?x with SLIdle => _ | _ => _ end] => is_var x; destruct x
+           | context [match ?x with FPIdle => _ | _ => _ end] => is_var x; destruct x
+           | context [match ?x with O => _ | S _ => _ end] => is_var x; destruct x
+           | context [if ?b then _ else _] => is_var b; destruct b
+           | context [if ?b then _ else _] => destruct b eqn:?
+           end; cbn [fp sq scap hwriting] in *; try congruence.
+  all: try match goal with H : (_ <? _)%nat = false |- _ => apply Nat.ltb_ge in H end.
+  all: try (destruct (Nat.eq_dec q c) as [->|?]; [left; auto|right; lia]).
+Qed.
+
+Lemma sq_bounded : forall c evs, (sq (runh evs (inith c)) <= c)%nat /\ scap (runh evs (inith c)) = c.
+Proof.
+  intros c evs. assert (G : forall s, (sq s <= scap s)%nat -> forall evs, (sq (runh evs s) <= scap (runh evs s))%nat /\ scap (runh evs s) = scap s).
+  { clear. intros s H evs. revert s H. induction evs as [|e r IH]; intros s H; [cbn; auto|].
+    change (runh (e :: r) s) with (runh r (steph s e)).
+    assert (H' : (sq (steph s e) <= scap (steph s e))%nat /\ scap (steph s e) = scap s).
+    { destruct s as [q c w t l f k]. cbn in H.
+      destruct e; cbn [steph sq scap hwriting htok sl fp sock_full];
+        repeat match goal with
+               | |- context [match ?x with SLIdle => _ | _ => _ end] => is_var x; destruct x
+               | |- context [match ?x with FPIdle => _ | _ => _ end] => is_var x; destruct x
+               | |- context [match ?x with O => _ | S _ => _ end] => is_var x; destruct x
+               | |- context [if ?b then _ else _] => is_var b; destruct b
+               | |- context [if ?b then _ else _] => destruct b eqn:?
+               end; cbn;
+        repeat match goal with H : (_ <? _)%nat = true |- _ => apply Nat.ltb_lt in H end; split; try reflexivity; lia. }
+    destruct H' as [A B]. destruct (IH _ A) as [C D]. split; [assumption|congruence]. }
+  destruct (G (inith c) ltac:(cbn; lia) evs) as [A B]. cbn in B. rewrite B in A. auto.
+Qed.
+
+(* "wakeUpPeer / hotRestart never block", in full *)
+Definition wakeup_never_blocks_full : Prop := forall c evs, fp (runh evs (inith c)) <> FPBlocked.
+
+Definition witness_sendch_full : list hev := [HSock true; HEnq; HTake; HEnq; HEnq; HFpTry].
+
+Lemma wakeup_never_blocks_refuted : ~ wakeup_never_blocks_full.
+Proof. intro H. apply (H 2%nat witness_sendch_full). vm_compute. reflexivity. Qed.
+
+(* ... and in the state the witness reaches nothing can move until the peer reads its socket again *)
+Lemma stuck_until_peer_resumes : forall s e, stuckh s = true -> (forall b, e <> HSock b) -> steph s e = s.
+Proof.
+  intros s e H Hne. destruct s as [q c w t l f k]. unfold stuckh in H. cbn in H.
+  destruct f; try discriminate. destruct l; try discriminate.
+  apply andb_prop in H. destruct H as [Hk Hq]. destruct k; try discriminate. apply Nat.eqb_eq in Hq. subst q.
+  destruct e; cbn [steph sq scap hwriting htok sl fp sock_full]; try reflexivity.
+  - rewrite Nat.ltb_irrefl. reflexivity.
+  - rewrite Nat.ltb_irrefl. reflexivity.
+  - exfalso. apply (Hne full). reflexivity.
+Qed.
+
+Lemma stuck_reachable : stuckh (runh witness_sendch_full (inith 2)) = true.
+Proof. vm_compute. reflexivity. Qed.
